@@ -794,7 +794,10 @@ def execute(plan: dict[str, Any], tapes: Any = None,
     s = plan['sim']
     for k, inc in enumerate(incs):
         cfg = core.SimCfg(
-            poison=s.get('poison', False), latency=s.get('latency', 1e-4),
+            poison=s.get('poison', False) and not s.get('late_read'),
+            late_read=s.get('late_read', False),
+            fifo=not s.get('unordered', False),
+            latency=s.get('latency', 1e-4),
             bandwidth=s.get('bandwidth', 1e9),
             initialized=plan.get('initialized', True),
             max_actions=s.get('max_actions', 200000),
